@@ -1,6 +1,6 @@
 """C09 configuration for ./check (see checks/propcfg.py for the keys)."""
 CFG = {
-    "modules": ["VaxisModel.Props.C09"],
+    "modules": ["VaxisModel.Props.C09", "VaxisModel.Witness.F111"],
     "extractors": ["C09"],
     "drivers": ["C09"],
     "trivial_prefix": (),
